@@ -124,13 +124,13 @@ func genStressB(r *Rng, tier string, p *Plan) {
 }
 
 type stressEv struct {
-	op              Op
-	ev              *bEvent
-	req             *bRequest
-	entry, owner    int
-	entryStressed   bool
-	late            bool
-	firstSeenStress bool // its trace was first seen while the entry node was stressed
+	op                  Op
+	ev                  *bEvent
+	req                 *bRequest
+	entry, owner        int
+	entryStressed       bool
+	late                bool
+	firstSeenStress     bool // its trace was first seen while the entry node was stressed
 	reliefStartedDuring bool // relief started on the entry node while this span was inside the router
 }
 
